@@ -150,6 +150,19 @@ func genC14(tier string, rng *Rng) {
 			emitCase(s, 16, stop, "eof")
 		}
 	}
+	// a trailer section that is not a list of field lines (a field name with a blank, i.e. something that looks like a
+	// request line; no colon; a forbidden name): read to the end, partly, or not at all - whatever is left of the
+	// trailer section must never become a request (after seed C14-m8)
+	for _, tr := range []string{"GET /smuggled?x:y HTTP/1.1\r\nHost: x\r\n\r\n", "GET /smuggled HTTP/1.1\r\nHost: x\r\n\r\n", "X Y: 1\r\n\r\n",
+		"X-A: 1\r\nGET /smuggled?a:b HTTP/1.1\r\nHost: x\r\n\r\n", "Content-Length: 5\r\n\r\n", "\tX: 1\r\n\r\n"} {
+		s := []byte("POST /c HTTP/1.1\r\nHost: h\r\nTransfer-Encoding: chunked\r\n\r\n3\r\nabc\r\n0\r\n" + tr)
+		s = append(s, probe...)
+		for _, stop := range []int{0, 2, 3, 4, 50} {
+			for _, rs := range []int{1, 16} {
+				emitCase(s, rs, stop, "eof")
+			}
+		}
+	}
 	// idle styles of the transport, read time-outs in the middle of the stream, retrying handlers (c14x.go)
 	genC14X(tier, rng)
 	genStreamCases(rng, n, 80)
